@@ -158,7 +158,7 @@ theorem looped_member_with_empty_loop_renders_nothing (W : World) (f : Nat) (ctx
     evalAsElement W (f + 3) ctx st tag attrs kids = .ok ([], st) := by
   have hne2 : (e != []) = true := by simpa using hne
   rcases hc with rfl | ⟨a, rfl⟩ | ⟨mk, rfl⟩ <;>
-    simp [evalAsElement, hfor, hne2, evalFor, hp, hr, bindE, evalForItems]
+    simp [evalAsElement, hfor, hne2, evalFor, hp, hr, bindE, evalForItems, Val.iterOrder]
 
 theorem hasAttr_removeAttr_self (attrs : List Attr) (k : Str) : hasAttr (removeAttr attrs k) k = false := by
   simp [hasAttr, removeAttr, List.any_filter]
